@@ -233,6 +233,9 @@ def parseEnv (s : String) : Option Env :=
 
 /-- one spelling's result: `ast=<tree>;val=<val>` -/
 def judge (which : String) (tree : E) (expected : Res) (res : String) : Option Verdict :=
+  if res.startsWith "PANIC" then
+    some (.specFail "C18.panic" s!"{which} spelling: parsing / evaluating {showE tree} panicked: {res}")
+  else
   match res.splitOn ";" with
   | [a, v] =>
     let ast := (a.drop 4).toString
